@@ -114,7 +114,8 @@ def assemble(repo=None, contracts_path=None, prelude_path=None, mutate=None):
         hsrc_code = hsrc
     contracts = parse_contracts(contracts_path)
     report = {"edits_applied": [], "functions": [], "dropped": [
-        "SubTimeline::value_at and interpolate_value (float arithmetic: route K)",
+        "interpolate_value's body (float arithmetic: proved by route K); declared external_body with an uninterpreted result `spec_interpolate`",
+        "f32::clamp (assume_specification: result is `spec_clamp01`, a valid position for non-NaN input)",
         "Easing (declared as an opaque external type with clone == identity, A3)",
         "Lerp (marker trait only; lerp is never called by the extracted functions)",
         "#[cfg(test)] module",
@@ -221,7 +222,7 @@ def assemble(repo=None, contracts_path=None, prelude_path=None, mutate=None):
         emit_fn("impl<Value: Clone> SplitKeyframe<Value>", n, "SplitKeyframe::" + n)
     out.append("}\n\n")
     out.append("impl<Value: Clone + Lerp> SubTimeline<Value> {\n")
-    for n in ("from_keyframes", "override_start_value", "empty", "get_bounding_frames", "get_frame"):
+    for n in ("from_keyframes", "override_start_value", "value_at", "empty", "get_bounding_frames", "get_frame"):
         emit_fn("impl<Value: Clone + Lerp> SubTimeline<Value>", n, "SubTimeline::" + n)
     out.append("}\n\n")
     post = os.path.join(vlib.VERIF, "contracts/verus/postlude.rs")
